@@ -474,12 +474,12 @@ theorem mapOk_setType {T : Nat} {Dm : DigestFn 4} {m : OMap 3} {ctr ty : Nat} (h
     cases heq
     exact ⟨s, ty, _, _, rfl, rest⟩
 
-theorem setType_ok {w : World} {p : SlabID} {ty : Nat} {cx : Ctx} {w' : World} {cx' : Ctx}
-    (H : WorldOk D w cx.ctr) (hhand : HandleOk w p) (h : w.setType p ty cx = .ok (w', cx')) :
+theorem setType_okA {rank0 : SlabID → Nat} {w : World} {p : SlabID} {ty : Nat} {cx : Ctx} {w' : World} {cx' : Ctx}
+    (H0 : WorldOkGen D rank0 none (fun _ => False) w cx.ctr) (hhand : HandleOk w p)
+    (h : w.setType p ty cx = .ok (w', cx')) :
     WorldOk D w' cx'.ctr ∧ cx.ctr ≤ cx'.ctr ∧
       (∃ c c', w.cont? p = some c ∧ w'.cont? p = some c' ∧ c'.storedElems = c.storedElems ∧ c'.vid = c.vid) ∧
-      HandleOk w' p := by
-  obtain ⟨rank0, H0⟩ := H
+      HandleOk w' p ∧ ContsSig w w' ∧ OpFrame rank0 w w' p (Moved none none) := by
   unfold setType at h
   split at h
   · rename_i a hpa
@@ -507,10 +507,21 @@ theorem setType_ok {w : World} {p : SlabID} {ty : Nat} {cx : Ctx} {w' : World} {
         have := F3.self
         rw [cont?_setCont_self] at this
         exact this.get_some : ∃ cp3, w'.cont? p = some cp3 ∧ Cont.SameData (.arr (a.setType ty cx).1) cp3)
-      exact ⟨⟨rank0, H3⟩, by omega, ⟨_, cp3, hpa, hcp3, hsd3.storedElems, hsd3.vid⟩,
-        hhand1.transfer (fun q y => (F3.sig.holds_iff q y).mp) F3.cur⟩
+      refine ⟨⟨rank0, H3⟩, by omega, ⟨_, cp3, hpa, hcp3, hsd3.storedElems, hsd3.vid⟩,
+        hhand1.transfer (fun q y => (F3.sig.holds_iff q y).mp) F3.cur,
+        hS.trans F3.sig,
+        fun z hz hrk _ => ⟨?_, ?_⟩, fun q y _ => ?_, fun z hzh _ => ?_⟩
+      · rw [F3.above z hz hrk, cont?_setCont_ne _ _ _ _ hz]
+      · rw [F3.hinfo z hz hrk]; rfl
+      · rw [F3.idx]; rfl
+      · exact (hzh.transfer (fun q y => (hS.holds_iff q y).mp)
+          (CurKept.of_sig hS (fun _ _ => rfl) (fun _ _ hy _ => hy))).transfer
+            (fun q y => (F3.sig.holds_iff q y).mp) F3.cur
     · cases h
-      exact ⟨⟨rank0, by rw [hctr]; exact H1⟩, by omega, ⟨_, _, hpa, cont?_setCont_self _ _ _, rfl, rfl⟩, hhand1⟩
+      exact ⟨⟨rank0, by rw [hctr]; exact H1⟩, by omega, ⟨_, _, hpa, cont?_setCont_self _ _ _, rfl, rfl⟩, hhand1,
+        hS, fun z hz _ _ => ⟨cont?_setCont_ne _ _ _ _ hz, rfl⟩, fun _ _ _ => rfl,
+        fun z hzh _ => hzh.transfer (fun q y => (hS.holds_iff q y).mp)
+          (CurKept.of_sig hS (fun _ _ => rfl) (fun _ _ hy _ => hy))⟩
   · rename_i m hpm
     have hmok : MapOk w.T (D p) m cx.ctr := H0.conts p _ hpm
     have hsd : Cont.SameData (.map m) (.map { m with ty := ty }) := ⟨rfl, rfl, fun _ _ => rfl⟩
@@ -536,11 +547,31 @@ theorem setType_ok {w : World} {p : SlabID} {ty : Nat} {cx : Ctx} {w' : World} {
         have := F3.self
         rw [cont?_setCont_self] at this
         exact this.get_some : ∃ cp3, w'.cont? p = some cp3 ∧ Cont.SameData (.map (m.setType ty cx).1) cp3)
-      exact ⟨⟨rank0, H3⟩, by omega, ⟨_, cp3, hpm, hcp3, hsd3.storedElems, hsd3.vid⟩,
-        hhand1.transfer (fun q y => (F3.sig.holds_iff q y).mp) F3.cur⟩
+      refine ⟨⟨rank0, H3⟩, by omega, ⟨_, cp3, hpm, hcp3, hsd3.storedElems, hsd3.vid⟩,
+        hhand1.transfer (fun q y => (F3.sig.holds_iff q y).mp) F3.cur,
+        hS.trans F3.sig,
+        fun z hz hrk _ => ⟨?_, ?_⟩, fun q y _ => ?_, fun z hzh _ => ?_⟩
+      · rw [F3.above z hz hrk, cont?_setCont_ne _ _ _ _ hz]
+      · rw [F3.hinfo z hz hrk]; rfl
+      · rw [F3.idx]; rfl
+      · exact (hzh.transfer (fun q y => (hS.holds_iff q y).mp)
+          (CurKept.of_sig hS (fun _ _ => rfl) (fun _ _ hy _ => hy))).transfer
+            (fun q y => (F3.sig.holds_iff q y).mp) F3.cur
     · cases h
-      exact ⟨⟨rank0, by rw [hctr]; exact H1⟩, by omega, ⟨_, _, hpm, cont?_setCont_self _ _ _, rfl, rfl⟩, hhand1⟩
+      exact ⟨⟨rank0, by rw [hctr]; exact H1⟩, by omega, ⟨_, _, hpm, cont?_setCont_self _ _ _, rfl, rfl⟩, hhand1,
+        hS, fun z hz _ _ => ⟨cont?_setCont_ne _ _ _ _ hz, rfl⟩, fun _ _ _ => rfl,
+        fun z hzh _ => hzh.transfer (fun q y => (hS.holds_iff q y).mp)
+          (CurKept.of_sig hS (fun _ _ => rfl) (fun _ _ hy _ => hy))⟩
   · cases h
+
+theorem setType_ok {w : World} {p : SlabID} {ty : Nat} {cx : Ctx} {w' : World} {cx' : Ctx}
+    (H : WorldOk D w cx.ctr) (hhand : HandleOk w p) (h : w.setType p ty cx = .ok (w', cx')) :
+    WorldOk D w' cx'.ctr ∧ cx.ctr ≤ cx'.ctr ∧
+      (∃ c c', w.cont? p = some c ∧ w'.cont? p = some c' ∧ c'.storedElems = c.storedElems ∧ c'.vid = c.vid) ∧
+      HandleOk w' p := by
+  obtain ⟨rank0, H0⟩ := H
+  obtain ⟨h1, h2, h3, h4, _⟩ := setType_okA H0 hhand h
+  exact ⟨h1, h2, h3, h4⟩
 
 end World
 end Atree
